@@ -1183,13 +1183,13 @@ class Server:
     @PathConditions(PathConditions.path_must_exists)
     @PathPermissions(PathPermissions.readable)
     async def mlsd(self, connection, rest):
+        @worker
         @ConnectionConditions(
             ConnectionConditions.data_connection_made,
             wait=True,
             fail_code="425",
             fail_info="Can't open data connection",
         )
-        @worker
         async def mlsd_worker(self, connection, rest):
             stream = connection.data_connection
             del connection.data_connection
@@ -1242,13 +1242,13 @@ class Server:
     @PathConditions(PathConditions.path_must_exists)
     @PathPermissions(PathPermissions.readable)
     async def list(self, connection, rest):
+        @worker
         @ConnectionConditions(
             ConnectionConditions.data_connection_made,
             wait=True,
             fail_code="425",
             fail_info="Can't open data connection",
         )
-        @worker
         async def list_worker(self, connection, rest):
             stream = connection.data_connection
             del connection.data_connection
@@ -1320,13 +1320,13 @@ class Server:
     )
     @PathPermissions(PathPermissions.writable)
     async def stor(self, connection, rest, mode="wb"):
+        @worker
         @ConnectionConditions(
             ConnectionConditions.data_connection_made,
             wait=True,
             fail_code="425",
             fail_info="Can't open data connection",
         )
-        @worker
         async def stor_worker(self, connection, rest):
             stream = connection.data_connection
             del connection.data_connection
@@ -1366,13 +1366,13 @@ class Server:
     )
     @PathPermissions(PathPermissions.readable)
     async def retr(self, connection, rest):
+        @worker
         @ConnectionConditions(
             ConnectionConditions.data_connection_made,
             wait=True,
             fail_code="425",
             fail_info="Can't open data connection",
         )
-        @worker
         async def retr_worker(self, connection, rest):
             stream = connection.data_connection
             del connection.data_connection
